@@ -43,11 +43,17 @@ Definition np_interp (v : list T) (t : T) : T :=
        let b := nth (S (Z.to_nat i)) v n0 in
        (b - a) * (t - nofZ i) + a.
 
-(**  new_npts = factor * len(values)
+(**  m is not None (decimation): new_npts = len(values) / m     (repaired code, commits 725b23a + c33582e)
+     else:                        new_npts = factor * len(values)
      if even: new_npts = 2 * int(new_npts / 2)
      t_db = np.arange(new_npts) / factor          -- np.arange(x) has ceil(x) entries for x >= 0   *)
-Definition new_npts (even : bool) (f : T) (n : nat) : Z :=
-  let x := f * nofZ (Z.of_nat n) in
+Definition npts_raw (k : fac) (n : nat) : T :=
+  match k with
+  | FDec m => nofZ (Z.of_nat n) / nofZ m
+  | _ => fac_val k * nofZ (Z.of_nat n)
+  end.
+Definition new_npts (even : bool) (k : fac) (n : nat) : Z :=
+  let x := npts_raw k n in
   if even then Z.mul 2 (ntrunc (x / nofZ 2)) else nceil x.
 (** values at the positions i / factor, i < cnt *)
 Definition interp_at (f : T) (v : list T) (cnt : nat) : list T :=
@@ -56,17 +62,23 @@ Definition interp_at (f : T) (v : list T) (cnt : nat) : list T :=
 (** interp_array_to_approx_dt(values, dt, target_dt, even) = (acc_interp, dt / factor);
     interp_to_approx_dt wraps the same call in AccSignal(acc_interp, dt_interp) *)
 Definition interp_approx (even : bool) (v : list T) (dt tg : T) : list T * T :=
-  let f := factor dt tg in
-  (interp_at f v (Z.to_nat (new_npts even f (length v))), dt / f).
+  let k := factor_kind dt tg in
+  let f := fac_val k in
+  (interp_at f v (Z.to_nat (new_npts even k (length v))), dt / f).
 
-(**  resample_to_approx_dt:  new_npts = int(factor * asig.npts); if even: new_npts = 2 * int(new_npts / 2)
+(**  resample_to_approx_dt (repaired code, commits 725b23a + c33582e + 38ddd83):
+       new_npts = int(npts / m)  (decimation)  or  int(factor * npts)
+       acc_interp = resample(values, new_npts)                       -- untrimmed count [rs_count]
+       if even: acc_interp = acc_interp[:2 * int(new_npts / 2)]      -- final length [new_npts_rs]
      scipy.signal.resample is an oracle [RS values num] *)
-Definition new_npts_rs (even : bool) (f : T) (n : nat) : Z :=
-  let c := ntrunc (f * nofZ (Z.of_nat n)) in
+Definition rs_count (k : fac) (n : nat) : Z := ntrunc (npts_raw k n).
+Definition new_npts_rs (even : bool) (k : fac) (n : nat) : Z :=
+  let c := rs_count k n in
   if even then (2 * Z.quot c 2)%Z else c.
 Definition resample_approx (RS : list T -> nat -> list T) (even : bool) (v : list T) (dt tg : T) : list T * T :=
-  let f := factor dt tg in
-  (RS v (Z.to_nat (new_npts_rs even f (length v))), dt / f).
+  let k := factor_kind dt tg in
+  let out := RS v (Z.to_nat (rs_count k (length v))) in
+  ((if even then firstn (Z.to_nat (new_npts_rs true k (length v))) out else out), dt / fac_val k).
 End Generic.
 
 (** * binary64 kernel: the same scalar chain with the roundings of the code
@@ -81,19 +93,21 @@ Definition factor_b64 (dt tg : b64) : fac * b64 :=
   | Lt => let m := ffloor (fdiv fone q) in (FDec m, fdiv fone (fofZ m))
   end.
 Definition newdt_b64 (dt tg : b64) : b64 := fdiv dt (snd (factor_b64 dt tg)).
-(** new_npts as the code computes it: for [FRef k] the product k * len is a Python int (exact);
-    otherwise it is the float product fl(factor * len) *)
+(** new_npts as the code computes it: for [FRef k] the product k * len is a Python int (exact); for a decimation the
+    float quotient fl(len / m) with the stored integer m; for factor 1.0 the float product fl(1.0 * len) *)
 Definition npts_raw_b64 (kf : fac * b64) (n : Z) : Q :=
   match fst kf with
   | FRef k => inject_Z (k * n)
-  | _ => fQ (fmul (snd kf) (fofZ n))
+  | FDec m => fQ (fdiv (fofZ n) (fofZ m))
+  | FSame => fQ (fmul (snd kf) (fofZ n))
   end.
 Definition Qtrunc (q : Q) : Z := match Qcompare q 0 with Lt => Qceiling q | _ => Qfloor q end.
 (** interp variant: 2*int(x/2) (x/2 is exact in binary64) or len(np.arange(x)) = ceil(x) *)
 Definition npts_b64 (even : bool) (dt tg : b64) (n : Z) : Z :=
   let x := npts_raw_b64 (factor_b64 dt tg) n in
   if even then (2 * Qtrunc (x / 2))%Z else Qceiling x.
-(** resample variant: int(x), then 2*int(c/2) *)
+(** resample variant: int(x) samples are requested from scipy, the result is cut to 2*int(c/2) when even *)
+Definition rs_count_b64 (dt tg : b64) (n : Z) : Z := Qtrunc (npts_raw_b64 (factor_b64 dt tg) n).
 Definition npts_rs_b64 (even : bool) (dt tg : b64) (n : Z) : Z :=
   let c := Qtrunc (npts_raw_b64 (factor_b64 dt tg) n) in
   if even then (2 * Z.quot c 2)%Z else c.
